@@ -105,14 +105,16 @@ def build_traces(path, tier, seed):
     rng = np.random.default_rng(seed + 18)
     recs, meta = [], {}
     tid = 0
-    ncomb = 12 if tier == "quick" else 80
+    ncomb = 30 if tier == "quick" else 160
     nscan = 10 if tier == "quick" else 60
     nclu = 16 if tier == "quick" else 120
     for i in range(ncomb):
         n = int(rng.integers(2, 200))
         ns, _ = gen.record(rng, n)
         we, _ = gen.record(rng, n)
-        theta = float([0.0, 90.0, 180.0, 45.0, 270.0, rng.uniform(-360, 720), rng.uniform(0, 180)][i % 7])
+        theta = [0.0, 90.0, 180.0, 45.0, 270.0, rng.uniform(-360, 720), rng.uniform(0, 180), -90.0, -270.0, -450.0, -180.0, 360.0, 450.0, -45.0][int(rng.integers(14))]
+        theta_arg = [float(theta), np.float64(theta), int(theta) if float(theta).is_integer() else float(theta)][int(rng.integers(3))]
+        theta = float(theta)
         if i % 3 == 1:       # integer-count records / lists of ints
             ns = np.round(ns / (np.max(np.abs(ns)) + 1e-300) * 50).astype(np.int64)
             we = np.round(we / (np.max(np.abs(we)) + 1e-300) * 50).astype(np.int64)
@@ -120,8 +122,8 @@ def build_traces(path, tier, seed):
                 ns, we = ns.tolist(), we.tolist()
         a, b = eqsig.AccSignal(ns, 0.01), eqsig.AccSignal(we, 0.01)
         ns, we = np.asarray(ns, dtype=float), np.asarray(we, dtype=float)
-        out = multiple.combine_at_angle(a, b, theta).values
-        out180 = multiple.combine_at_angle(a, b, theta + 180.0).values
+        out = multiple.combine_at_angle(a, b, theta_arg).values
+        out180 = multiple.combine_at_angle(a, b, theta_arg + 180).values
         tid += 1
         recs.append({"tid": tid, "kind": "combine", "dt": enc(0.01), "ns": enc_seq(ns), "we": enc_seq(we), "theta": enc(theta),
                      "out": enc_seq(out), "out180": enc_seq(out180)})
@@ -164,6 +166,15 @@ def build_traces(path, tier, seed):
         steps = int(rng.integers(2, 9))
         master = int(rng.integers(0, k))
         base = np.cumsum(rng.standard_normal(n + 2 * steps))
+        trend = rng.integers(4) == 0
+        if trend:
+            # exactly representable linear trend (counts, halves), optionally with a ripple whose period is shorter than the
+            # search window: x[n+d] - x[n] is then EXACTLY constant for some d, only the true lag makes the overlap coincide
+            idx = np.arange(n + 2 * steps, dtype=float)
+            base = idx * float(rng.choice([1.0, 0.5, -2.0]))
+            if rng.integers(2) and steps > 2:
+                p_ = int(rng.integers(2, steps))
+                base = base + 0.25 * np.array([3.0, -1.0, 2.0, 0.0, -3.0, 1.0, 5.0, -2.0])[(np.arange(n + 2 * steps) % p_)]
         sigs = []
         lags = []
         for j in range(k):
@@ -174,9 +185,9 @@ def build_traces(path, tier, seed):
                 lg = int(rng.integers(1 - steps, steps))
                 lags.append(lg)
                 s = base[steps - lg: steps - lg + n].copy()          # the true record seen lg samples later
-                if i % 2:
+                if i % 2 and not trend:
                     s = s + 0.01 * rng.standard_normal(n)             # not an exact copy
-                s = s + (rng.uniform(-0.05, 0.05) if i % 3 == 0 else 0.0)
+                s = s + (rng.uniform(-0.05, 0.05) if (i % 3 == 0 and not trend) else 0.0)
                 sigs.append(s)
         if i % 4 == 1:       # tiny records (1e-9) with offsets of their own size
             sc_ = float(10.0 ** rng.uniform(-10, -8))
@@ -186,11 +197,14 @@ def build_traces(path, tier, seed):
         dt = 0.01
         e_idx = int(rng.integers(4, n // 2))
         s_idx = 0
-        wm = int(rng.integers(3))          # section window: 0 explicit start / end, 1 the default window (first second), 2 start only
+        # section window: 0 explicit start / end, 1 the default window (first second), 2 start only, 3 from a whole second to the end (end=-1)
+        wm = int(rng.integers(4))
         if wm:
             dt = float(rng.choice([0.1, 0.05, 0.04, 0.025]))
             e_idx = int(1 / dt) + 1
             s_idx = int(rng.integers(1, e_idx - 2)) if wm == 2 else 0
+        if wm == 3:
+            s_idx, e_idx = int(1 / dt), n - 1
         with warnings.catch_warnings():
             warnings.simplefilter("ignore")
             c = eqsig.Cluster([s.copy() for s in sigs], dt, master_index=master, stypes="acc" if i % 2 else "custom")
@@ -204,8 +218,10 @@ def build_traces(path, tier, seed):
                 c.same_start(start=0, end=end_t)
             elif wm == 1:
                 c.same_start()
-            else:
+            elif wm == 2:
                 c.same_start(start=start_t)
+            else:
+                c.same_start(start=1, end=-1)
             v2raw = [c.values_by_index(j) for j in range(k)]
             arr2 = [bool(isinstance(v, np.ndarray) and v.dtype.kind in "fiu") for v in v2raw]
             v2 = [np.array(v, dtype=float) for v in v2raw]
@@ -215,8 +231,8 @@ def build_traces(path, tier, seed):
         recs.append({"tid": tid, "kind": "cluster", "k": k, "n": n, "master": master + 1, "steps": steps, "s": s_idx, "e": e_idx,
                      "v0": [enc_seq(s) for s in sigs], "v1": [enc_seq(s) for s in v1], "v2": [enc_seq(s) for s in v2],
                      "arr1": arr1, "arr2": arr2})
-        meta[tid] = {"kind": "cluster", "k": k, "n": n, "master": master, "steps": steps, "true_lags": lags, "exact": not (i % 2),
-                     "window": ["start=0, end=%.3f" % end_t, "default (first second), dt=%g" % dt, "start=%.3f only, dt=%g" % (start_t, dt)][wm]}
+        meta[tid] = {"kind": "cluster", "k": k, "n": n, "master": master, "steps": steps, "true_lags": lags, "exact": bool(trend or not (i % 2)), "linear_trend": bool(trend),
+                     "window": ["start=0, end=%.3f" % end_t, "default (first second), dt=%g" % dt, "start=%.3f only, dt=%g" % (start_t, dt), "start=1, end=-1, dt=%g" % dt][wm]}
     write_ndjson(path, recs)
     return meta
 
